@@ -98,7 +98,7 @@ def check_family(acc, kind, salt, fields, n_groups, values, others=None):
         env = dict(others)
         env[fields[0]] = v
         out = impl.call(ev, env)
-        k = sem.hash_k(pre + "".join(str(env[nm]) for nm in names))
+        k = sem.hash_k(pre + "".join(sem._str(env[nm]) for nm in names))
         want = f"g{(k * n_groups) >> 32}"
         if out[0] == "ok" and type(out[1]) is str and out[1] == want:
             seen.add(want)
